@@ -338,7 +338,7 @@ def run_property(pid, tier, seed, out=sys.stdout):
                              paths=p.get('paths'), error=p.get('error'),
                              obligations=len(p.get('obligations', []))))
     assumptions = list(GLOBAL_ASSUMPTIONS) + sorted(eng.assumed) + ["assumed contract (not verified here): " + t for t in trusted]
-    ev = dict(property_id=pid, tier=tier, seed=seed, level='proof',
+    ev = dict(property_id=pid, tier=tier, seed=seed, level='other' if pid == 'C15' else 'proof',
               coverage=dict(obligations=total, discharged=discharged,
                             checker_cmd="python3-vt /verif/pyvc/check.py %s --tier %s  (z3 %s via z3-solver; /usr/bin/cvc5 on z3 unknowns)" % (pid, tier, solve.z3.get_version_string()),
                             trusted_base=sorted(set(a for a in assumptions if a.startswith('library model') or a.startswith('assumed contract') or a.startswith('lemma'))),
@@ -350,6 +350,11 @@ def run_property(pid, tier, seed, out=sys.stdout):
                             structural=[s['name'] for s in struct_results],
                             explanation="obligations = distinct named obligations (each may have several per-path queries; all paths must be discharged); bounded[] entries are run-time contract checks and are not part of obligations/discharged"),
               assumptions=assumptions, wall_s=round(time.time() - t_start, 2), violations=len(violations))
+    if os.environ.get('PYVC_RECORD_HINTS'):
+        # maintenance mode: remember which solver configuration discharged each obligation (speed hint, see solve.py)
+        h = dict(solve.load_hints())
+        h.update(solve.NEW_HINTS)
+        json.dump(h, open(solve.HINTS_FILE, 'w'), indent=0, sort_keys=True)
     os.makedirs(os.path.join(VERIF, 'evidence'), exist_ok=True)
     json.dump(ev, open(os.path.join(VERIF, 'evidence', pid + '.json'), 'w'), indent=1, default=str)
 
